@@ -681,11 +681,11 @@ def u_secp_from_jacobian(ctx):
 
 
 UNITS["secp.jacobian_double"] = Unit("secp.jacobian_double", u_secp_jdouble, [f"{SECP}.jacobian_double"],
-                                     props=("C13", "C18"))
-UNITS["secp.jacobian_add"] = Unit("secp.jacobian_add", u_secp_jadd, [f"{SECP}.jacobian_add"], props=("C13", "C18"))
-UNITS["secp.to_jacobian"] = Unit("secp.to_jacobian", u_secp_to_jacobian, [f"{SECP}.to_jacobian"], props=("C18",))
+                                     props=("C13", "C18", "C19", "C06"))
+UNITS["secp.jacobian_add"] = Unit("secp.jacobian_add", u_secp_jadd, [f"{SECP}.jacobian_add"], props=("C13", "C18", "C19", "C06"))
+UNITS["secp.to_jacobian"] = Unit("secp.to_jacobian", u_secp_to_jacobian, [f"{SECP}.to_jacobian"], props=("C18", "C06"))
 UNITS["secp.from_jacobian"] = Unit("secp.from_jacobian", u_secp_from_jacobian, [f"{SECP}.from_jacobian"],
-                                   props=("C18",))
+                                   props=("C18", "C19", "C06"))
 
 
 # ------------------------------------------------------------------------------------------
